@@ -7,433 +7,13 @@ use std::borrow::Cow;
 
 verus! {
 
-global size_of usize == 8;
+//@ include _frame_common.inc
 
-// ---------------------------------------------------------------------------------------------
-// Reference definitions (mirror of /verif/kani/proto/{spec,contracts}.rs)
-// ---------------------------------------------------------------------------------------------
-spec const VARINT_MAX: u64 = 0x3fff_ffff_ffff_ffff;
-
-spec fn varint_len_from_first(b: u8) -> int {
-    if b / 64 == 0 { 1 } else if b / 64 == 1 { 2 } else if b / 64 == 2 { 4 } else { 8 }
-}
-
-spec fn varint_complete(s: Seq<u8>) -> bool {
-    s.len() >= 1 && s.len() >= varint_len_from_first(s[0])
-}
-
-// RFC 9000 §16 value of the varint at the head of `s` - left abstract here: this unit only needs
-// that both the decoder and the reference read the SAME number. (Its concrete definition, and that
-// the four real BytesReader impls return it, is discharged by Kani: p_buffer_reader_get_varint,
-// p_slice_get_varint.)
-uninterp spec fn varint_val(s: Seq<u8>) -> u64;
-
-spec fn is_grease(id: u64) -> bool { id >= 0x21 && (id - 0x21) % 0x1f == 0 }
-spec fn frame_type_known(id: u64) -> bool { id == 0x00 || id == 0x01 || id == 0x04 || id == 0x41 }
-
-enum RefFrame {
-    NeedMore,
-    Unknown { consumed: int },
-    InvalidSessionId,
-    TooBig,
-    Frame { kind: u64, session: Option<u64>, payload: Seq<u8>, consumed: int },
-}
-
-// RFC 9114 §7.1 (type varint, length varint, payload) + WT draft (0x41, session id varint); the
-// endpoint's 4096-byte parse limit; a frame of unknown type is a frame like any other.
-spec fn ref_frame(s: Seq<u8>) -> RefFrame {
-    if !varint_complete(s) {
-        RefFrame::NeedMore
-    } else {
-        let n1 = varint_len_from_first(s[0]);
-        let t = varint_val(s);
-        let s2 = s.skip(n1);
-        if !varint_complete(s2) {
-            RefFrame::NeedMore
-        } else {
-            let n2 = varint_len_from_first(s2[0]);
-            let v2 = varint_val(s2);
-            let s3 = s2.skip(n2);
-            if t == 0x41 {
-                if v2 % 4 != 0 {
-                    RefFrame::InvalidSessionId
-                } else {
-                    RefFrame::Frame { kind: t, session: Some(v2), payload: Seq::<u8>::empty(), consumed: n1 + n2 }
-                }
-            } else if v2 > 4096 {
-                RefFrame::TooBig
-            } else if s3.len() < v2 {
-                RefFrame::NeedMore
-            } else if frame_type_known(t) || is_grease(t) {
-                RefFrame::Frame { kind: t, session: None, payload: s3.take(v2 as int), consumed: n1 + n2 + v2 }
-            } else {
-                RefFrame::Unknown { consumed: n1 + n2 + v2 }
-            }
-        }
-    }
-}
-
-proof fn lemma_skip_skip(s: Seq<u8>, a: int, b: int)
-    requires 0 <= a, 0 <= b, a + b <= s.len(),
-    ensures s.skip(a).skip(b) =~= s.skip(a + b),
-{
-}
-
-// ---------------------------------------------------------------------------------------------
-// varint.rs / ids.rs items used here (verified in unit `ids`; re-extracted so this file is closed)
-// ---------------------------------------------------------------------------------------------
-struct InvalidSessionId;
-struct VarIntBoundsExceeded;
-
-//@ extract wtransport-proto/src/varint.rs >> struct VarInt
-//@ end
-
-impl VarInt {
-    spec fn wf(self) -> bool { self.0 <= VARINT_MAX }
-
-//@ extract wtransport-proto/src/varint.rs >> impl VarInt >> fn into_inner
-//@ ensures r == self.0
-//@ end
-
-//@ extract wtransport-proto/src/varint.rs >> impl VarInt >> fn from_u32
-//@ keepconst
-//@ ensures r.0 == value as u64, r.wf()
-//@ end
-}
-
-//@ extract wtransport-proto/src/ids.rs >> struct StreamId
-//@ end
-
-impl StreamId {
-//@ extract wtransport-proto/src/ids.rs >> impl StreamId >> fn new
-//@ ensures r.0 == varint
-//@ end
-
-//@ extract wtransport-proto/src/ids.rs >> impl StreamId >> fn is_bidirectional
-//@ prologue proof { let x = self.0.0; assert((x & 0x2 == 0) == (x % 4 == 0 || x % 4 == 1)) by (bit_vector); }
-//@ ensures r == (self.0.0 % 4 == 0 || self.0.0 % 4 == 1)
-//@ end
-
-//@ extract wtransport-proto/src/ids.rs >> impl StreamId >> fn is_client_initiated
-//@ prologue proof { let x = self.0.0; assert((x & 0x1 == 0) == (x % 4 == 0 || x % 4 == 2)) by (bit_vector); }
-//@ ensures r == (self.0.0 % 4 == 0 || self.0.0 % 4 == 2)
-//@ end
-}
-
-//@ extract wtransport-proto/src/ids.rs >> struct SessionId
-//@ end
-
-impl SessionId {
-    spec fn val(self) -> u64 { self.0.0.0 }
-    spec fn wf(self) -> bool { self.val() <= VARINT_MAX && self.val() % 4 == 0 }
-
-//@ extract wtransport-proto/src/ids.rs >> impl SessionId >> fn try_from_session_stream
-//@ requires stream_id.0.wf()
-//@ ensures
-//@ | match r { Ok(s) => stream_id.0.0 % 4 == 0 && s.0 == stream_id && s.wf(), Err(_) => stream_id.0.0 % 4 != 0 }
-//@ end
-
-//@ extract wtransport-proto/src/ids.rs >> impl SessionId >> fn try_from_varint
-//@ requires varint.wf()
-//@ ensures
-//@ | match r { Ok(s) => varint.0 % 4 == 0 && s.val() == varint.0 && s.wf(), Err(_) => varint.0 % 4 != 0 }
-//@ end
-}
-
-// ---------------------------------------------------------------------------------------------
-// Assumed interface: bytes.rs `BytesReader` with a ghost view of the unread bytes.
-// Discharged for the real impls (BufferReader, &[u8]) by Kani: p_buffer_reader_get_varint,
-// p_slice_get_varint, p_readers_get_bytes.
-// ---------------------------------------------------------------------------------------------
-trait BytesReader<'a> {
-    spec fn remaining(&self) -> Seq<u8>;
-
-    fn get_varint(&mut self) -> (r: Option<VarInt>)
-        ensures
-            match r {
-                Some(v) => varint_complete(old(self).remaining())
-                    && v.0 == varint_val(old(self).remaining())
-                    && v.wf()
-                    && final(self).remaining() == old(self).remaining().skip(varint_len_from_first(old(self).remaining()[0])),
-                None => !varint_complete(old(self).remaining()) && final(self).remaining() == old(self).remaining(),
-            };
-
-    fn get_bytes(&mut self, len: usize) -> (r: Option<&'a [u8]>)
-        ensures
-            match r {
-                Some(b) => len <= old(self).remaining().len()
-                    && b@ == old(self).remaining().take(len as int)
-                    && final(self).remaining() == old(self).remaining().skip(len as int),
-                None => len > old(self).remaining().len() && final(self).remaining() == old(self).remaining(),
-            };
-}
-
-// ---------------------------------------------------------------------------------------------
-// frame.rs
-// ---------------------------------------------------------------------------------------------
-//@ extract wtransport-proto/src/frame.rs >> enum ParseError
-//@ end
-
-// registry constants referenced by the (external_body) `FrameKind::parse`; their values are
-// checked by Kani (p_framekind_id_parse_inverse)
-//@ extract wtransport-proto/src/frame.rs >> mod frame_kind_ids
-//@ attr #[verifier::external]
-//@ keepvis
-//@ subst `use crate::varint::VarInt;` => `use super::VarInt;`
-//@ end
-
-//@ extract wtransport-proto/src/frame.rs >> enum FrameKind
-//@ end
-
-impl FrameKind {
-    spec fn code(self) -> u64 {
-        match self {
-            FrameKind::Data => 0x00,
-            FrameKind::Headers => 0x01,
-            FrameKind::Settings => 0x04,
-            FrameKind::WebTransport => 0x41,
-            FrameKind::Exercise(id) => id.0,
-        }
-    }
-
-    spec fn parse_post(id: u64, r: Option<FrameKind>) -> bool {
-        match r {
-            Some(FrameKind::Data) => id == 0x00,
-            Some(FrameKind::Headers) => id == 0x01,
-            Some(FrameKind::Settings) => id == 0x04,
-            Some(FrameKind::WebTransport) => id == 0x41,
-            Some(FrameKind::Exercise(x)) => is_grease(id) && x.0 == id && !frame_type_known(id),
-            None => !frame_type_known(id) && !is_grease(id),
-        }
-    }
-
-// Contract identical to the one Kani proves on the real function for all 2^62 ids
-// (c_framekind_parse); left external_body here because Verus cannot translate `match` on
-// struct-typed consts.
-//@ extract wtransport-proto/src/frame.rs >> impl FrameKind >> fn is_id_exercise
-//@ attr #[verifier::external_body]
-//@ ensures r == is_grease(id.0)
-//@ nocanary
-//@ end
-
-//@ extract wtransport-proto/src/frame.rs >> impl FrameKind >> fn parse
-//@ attr #[verifier::external_body]
-//@ ensures FrameKind::parse_post(id.0, r)
-//@ nocanary
-//@ end
-}
-
-// helper specs for the two `Cow` deref forms vstd has no spec for (R8 substitutions)
-#[verifier::external_body]
-fn cow_len(c: &Cow<'_, [u8]>) -> (r: usize)
-    ensures r == c@.len()
-{
-    c.len()
-}
-
-#[verifier::external_body]
-fn cow_is_empty(c: &Cow<'_, [u8]>) -> (r: bool)
-    ensures r == (c@.len() == 0)
-{
-    c.is_empty()
-}
-
-#[verifier::external_body]
-fn cow_owned_empty<'a>() -> (r: Cow<'a, [u8]>)
-    ensures r@ == Seq::<u8>::empty()
-{
-    Cow::Owned(Default::default())
-}
-
-#[verifier::external_body]
-fn cow_borrowed<'a>(b: &'a [u8]) -> (r: Cow<'a, [u8]>)
-    ensures r@ == b@
-{
-    Cow::Borrowed(b)
-}
-
-//@ extract wtransport-proto/src/frame.rs >> struct Frame
-//@ end
-
-impl<'a> Frame<'a> {
-    // type invariant of Frame (established by `new`, the only constructor)
-    spec fn wf(self) -> bool {
-        &&& (self.kind is WebTransport ==> self.session_id is Some && self.payload@.len() == 0 && self.session_id->0.wf())
-        &&& (self.kind matches FrameKind::Exercise(id) ==> is_grease(id.0))
-        &&& self.payload@.len() <= VARINT_MAX
-    }
-
-    spec fn matches_ref(self, f: RefFrame) -> bool {
-        &&& f matches RefFrame::Frame { kind, session, payload, consumed }
-        &&& self.kind.code() == kind
-        &&& (session matches Some(s) ==> self.kind is WebTransport && self.session_id is Some && self.session_id->0.val() == s)
-        &&& (session is None ==> !(self.kind is WebTransport))
-        &&& self.payload@ == payload
-        &&& self.payload@.len() <= 4096
-        &&& self.wf()
-    }
-
-//@ extract wtransport-proto/src/frame.rs >> impl<'a> Frame<'a> >> fn new
-//@ subst `payload.is_empty()` => `cow_is_empty(&payload)`
-//@ subst `payload.len() <= VarInt::MAX.into_inner() as usize` => `cow_len(&payload) <= 4_611_686_018_427_387_903usize`
-//@ requires
-//@ | payload@.len() <= VARINT_MAX,
-//@ | kind is WebTransport ==> payload@.len() == 0 && session_id is Some && session_id->0.wf(),
-//@ | kind matches FrameKind::Exercise(id) ==> is_grease(id.0)
-//@ ensures r.kind == kind, r.payload == payload, r.session_id == session_id, r.wf()
-//@ end
-
-//@ extract wtransport-proto/src/frame.rs >> impl<'a> Frame<'a> >> fn new_webtransport
-//@ subst `Cow::Owned(Default::default())` => `cow_owned_empty()`
-//@ requires session_id.wf()
-//@ ensures r.kind is WebTransport, r.payload@ == Seq::<u8>::empty(), r.session_id == Some(session_id), r.wf()
-//@ end
-
-//@ extract wtransport-proto/src/frame.rs >> impl<'a> Frame<'a> >> fn read
-//@ subst `|InvalidSessionId| ParseError::InvalidSessionId` => `|_e: InvalidSessionId| -> (o: ParseError) ensures o == ParseError::InvalidSessionId { ParseError::InvalidSessionId }`
-//@ subst `Self::MAX_PARSE_PAYLOAD_ALLOWED` => `4096`
-//@ subst `Cow::Borrowed(payload)` => `cow_borrowed(payload)`
-//@ prologue let ghost s0 = bytes_reader.remaining();
-//@ insert_before `Ok(Some(Self::new_webtransport(session_id)))` => `proof { lemma_skip_skip(s0, varint_len_from_first(s0[0]), varint_len_from_first(s0.skip(varint_len_from_first(s0[0]))[0])); }`
-//@ insert_before `let kind = kind.ok_or(ParseError::UnknownFrame)?;` => `proof { let n1 = varint_len_from_first(s0[0]); let n2 = varint_len_from_first(s0.skip(n1)[0]); lemma_skip_skip(s0, n1, n2); lemma_skip_skip(s0, n1 + n2, payload_len as int); }`
-//@ ensures
-//@ | match ref_frame(old(bytes_reader).remaining()) {
-//@ |     RefFrame::NeedMore => r matches Ok(None),
-//@ |     RefFrame::Unknown { consumed } => r matches Err(ParseError::UnknownFrame)
-//@ |         && final(bytes_reader).remaining() == old(bytes_reader).remaining().skip(consumed),
-//@ |     RefFrame::InvalidSessionId => r matches Err(ParseError::InvalidSessionId),
-//@ |     RefFrame::TooBig => r matches Err(ParseError::PayloadTooBig),
-//@ |     RefFrame::Frame { kind, session, payload, consumed } => r matches Ok(Some(f))
-//@ |         && f.matches_ref(ref_frame(old(bytes_reader).remaining()))
-//@ |         && final(bytes_reader).remaining() == old(bytes_reader).remaining().skip(consumed),
-//@ | }
-//@ end
-}
-
-// the literal substituted for `Self::MAX_PARSE_PAYLOAD_ALLOWED` is its initializer in the source
-//@ extract wtransport-proto/src/frame.rs >> impl<'a> Frame<'a> >> const MAX_PARSE_PAYLOAD_ALLOWED
-//@ subst `const MAX_PARSE_PAYLOAD_ALLOWED: usize = 4096;` => `spec const MAX_PARSE_PAYLOAD_SRC: int = 4096;`
-//@ end
-
-impl<'a> Frame<'a> {
-//@ extract wtransport-proto/src/frame.rs >> impl<'a> Frame<'a> >> fn kind
-//@ ensures r == self.kind
-//@ end
-}
-
-// ---------------------------------------------------------------------------------------------
-// stream.rs: the four `read_frame` skip loops + `validate_frame` rule tables, verified MODULARLY
-// against the contract of `Frame::read` above (not its body), for any number of unknown frames.
-// ---------------------------------------------------------------------------------------------
-//@ extract wtransport-proto/src/error.rs >> enum ErrorCode
-//@ end
-
-//@ extract wtransport-proto/src/stream_header.rs >> enum StreamKind
-//@ end
-
-//@ extract wtransport-proto/src/stream_header.rs >> struct StreamHeader
-//@ end
-
-impl StreamHeader {
-//@ extract wtransport-proto/src/stream_header.rs >> impl StreamHeader >> fn kind
-//@ ensures r == self.kind
-//@ end
-}
-
-//@ extract wtransport-proto/src/stream.rs >> struct Stream
-//@ end
-
-//@ extract wtransport-proto/src/stream.rs >> mod types >> struct Bi
-//@ end
-//@ extract wtransport-proto/src/stream.rs >> mod types >> struct Uni
-//@ end
-//@ extract wtransport-proto/src/stream.rs >> mod types >> struct Remote
-//@ end
-//@ extract wtransport-proto/src/stream.rs >> mod types >> struct Local
-//@ end
-//@ extract wtransport-proto/src/stream.rs >> mod types >> struct BiRemote
-//@ end
-//@ extract wtransport-proto/src/stream.rs >> mod types >> struct BiLocal
-//@ end
-//@ extract wtransport-proto/src/stream.rs >> mod types >> struct UniRemote
-//@ end
-//@ extract wtransport-proto/src/stream.rs >> mod types >> struct H3
-//@ end
-
-// assumed std contract (core::mem::replace swaps in the new value and returns the old one)
-pub assume_specification<T> [std::mem::replace] (dest: &mut T, src: T) -> (r: T)
-    ensures r == *old(dest), *final(dest) == src;
-
-// The session typestate's payload (a SessionRequest = header map) is irrelevant to read_frame;
-// it is kept abstract here.
-struct Session;
-
-impl H3 {
-//@ extract wtransport-proto/src/stream.rs >> mod types >> impl H3 >> fn set_first_frame
-//@ ensures r == old(self).first_frame_done, final(self).first_frame_done == true, final(self).stream_header == old(self).stream_header
-//@ end
-
-//@ extract wtransport-proto/src/stream.rs >> mod types >> impl H3 >> fn stream_header
-//@ ensures r is Some == self.stream_header is Some, r is Some ==> *r->0 == self.stream_header->0
-//@ end
-}
-
-// RFC 9114 §7.2.1-§7.2.4, §6.2.1 and draft-ietf-webtrans-http3 §4.2: which frame type may appear
-// on which stream; `None` = accept, `Some(code)` = connection error to raise.
-// role: 0 peer-initiated bidi, 1 locally-initiated bidi, 2 peer control/QPACK/GREASE uni, 3 session
-spec fn rule(role: int, kind: u64, first_frame_done: bool) -> Option<ErrorCode> {
-    if !frame_type_known(kind) {
-        None  // GREASE
-    } else if role == 0 {
-        if kind == 0x00 || kind == 0x01 { None }
-        else if kind == 0x04 { Some(ErrorCode::FrameUnexpected) }
-        else if !first_frame_done { None } else { Some(ErrorCode::Frame) }
-    } else if role == 1 || role == 3 {
-        if kind == 0x00 || kind == 0x01 { None } else { Some(ErrorCode::FrameUnexpected) }
-    } else {
-        if kind == 0x04 { None } else { Some(ErrorCode::FrameUnexpected) }
-    }
-}
-
-proof fn lemma_unknown_bounds(s: Seq<u8>)
-    ensures ref_frame(s) matches RefFrame::Unknown { consumed } ==> 2 <= consumed <= s.len(),
-{
-}
-
-// the input with every leading complete unknown frame removed
-spec fn skip_unknown(s: Seq<u8>) -> Seq<u8>
-    decreases s.len(),
-{
-    match ref_frame(s) {
-        RefFrame::Unknown { consumed } => if 0 < consumed <= s.len() { skip_unknown(s.skip(consumed)) } else { s },
-        _ => s,
-    }
-}
-
-// what `read_frame` must return, for a given role and first-frame state
-spec fn read_frame_post(role: int, done: bool, input: Seq<u8>, rest: Seq<u8>, r: Result<Option<Frame<'_>>, ErrorCode>) -> bool {
-    let s1 = skip_unknown(input);
-    match ref_frame(s1) {
-        RefFrame::NeedMore => r matches Ok(None),
-        RefFrame::InvalidSessionId => r matches Err(ErrorCode::Id),
-        RefFrame::TooBig => r matches Err(ErrorCode::ExcessiveLoad),
-        RefFrame::Frame { kind, session, payload, consumed } => match rule(role, kind, done) {
-            None => r matches Ok(Some(f)) && f.matches_ref(ref_frame(s1)) && rest == s1.skip(consumed),
-            Some(e) => r matches Err(e2) && e2 == e,
-        },
-        RefFrame::Unknown { consumed } => false,
-    }
-}
+//@ include _stream_common.inc
 
 impl Stream<BiLocal, H3> {
-//@ extract wtransport-proto/src/stream.rs >> mod bilocal >> impl StreamBiLocalH3 >> fn validate_frame
-//@ requires frame.wf()
-//@ ensures
-//@ | match rule(1, frame.kind.code(), self.stage.first_frame_done) { None => r matches Ok(f) && f == frame, Some(e) => r matches Err(e2) && e2 == e }
-//@ end
-
 //@ extract wtransport-proto/src/stream.rs >> mod bilocal >> impl StreamBiLocalH3 >> fn read_frame
-//@ subst `frame::ParseError` => `ParseError` x3
+//@ rename `frame::ParseError` => `ParseError`
 //@ prologue let ghost s0 = bytes_reader.remaining();
 //@ loop 1 invariant s0 == old(bytes_reader).remaining(), skip_unknown(bytes_reader.remaining()) == skip_unknown(s0)
 //@ loop 1 decreases bytes_reader.remaining().len()
@@ -443,14 +23,8 @@ impl Stream<BiLocal, H3> {
 }
 
 impl Stream<Bi, Session> {
-//@ extract wtransport-proto/src/stream.rs >> mod session >> impl StreamSession >> fn validate_frame
-//@ requires frame.wf()
-//@ ensures
-//@ | match rule(3, frame.kind.code(), false) { None => r matches Ok(f) && f == frame, Some(e) => r matches Err(e2) && e2 == e }
-//@ end
-
 //@ extract wtransport-proto/src/stream.rs >> mod session >> impl StreamSession >> fn read_frame
-//@ subst `frame::ParseError` => `ParseError` x3
+//@ rename `frame::ParseError` => `ParseError`
 //@ prologue let ghost s0 = bytes_reader.remaining();
 //@ loop 1 invariant s0 == old(bytes_reader).remaining(), skip_unknown(bytes_reader.remaining()) == skip_unknown(s0)
 //@ loop 1 decreases bytes_reader.remaining().len()
@@ -460,15 +34,8 @@ impl Stream<Bi, Session> {
 }
 
 impl Stream<BiRemote, H3> {
-//@ extract wtransport-proto/src/stream.rs >> mod biremote >> impl StreamBiRemoteH3 >> fn validate_frame
-//@ requires frame.wf()
-//@ ensures
-//@ | match rule(0, frame.kind.code(), old(self).stage.first_frame_done) { None => r matches Ok(f) && f == frame, Some(e) => r matches Err(e2) && e2 == e },
-//@ | final(self).stage.first_frame_done
-//@ end
-
 //@ extract wtransport-proto/src/stream.rs >> mod biremote >> impl StreamBiRemoteH3 >> fn read_frame
-//@ subst `frame::ParseError` => `ParseError` x3
+//@ rename `frame::ParseError` => `ParseError`
 //@ prologue let ghost s0 = bytes_reader.remaining();
 //@ loop 1 invariant s0 == old(bytes_reader).remaining(), skip_unknown(bytes_reader.remaining()) == skip_unknown(s0), *self == *old(self)
 //@ loop 1 decreases bytes_reader.remaining().len()
@@ -480,24 +47,8 @@ impl Stream<BiRemote, H3> {
 }
 
 impl Stream<UniRemote, H3> {
-    spec fn is_control_like(&self) -> bool {
-        self.stage.stream_header is Some && !(self.stage.stream_header->0.kind is WebTransport)
-    }
-
-//@ extract wtransport-proto/src/stream.rs >> mod uniremote >> impl StreamUniRemoteH3 >> fn kind
-//@ requires self.stage.stream_header is Some
-//@ ensures r == self.stage.stream_header->0.kind
-//@ end
-
-//@ extract wtransport-proto/src/stream.rs >> mod uniremote >> impl StreamUniRemoteH3 >> fn validate_frame
-//@ requires frame.wf()
-//@ ensures
-//@ | match rule(2, frame.kind.code(), false) { None => r matches Ok(f) && f == frame, Some(e) => r matches Err(e2) && e2 == e },
-//@ | *final(self) == *old(self)
-//@ end
-
 //@ extract wtransport-proto/src/stream.rs >> mod uniremote >> impl StreamUniRemoteH3 >> fn read_frame
-//@ subst `frame::ParseError` => `ParseError` x3
+//@ rename `frame::ParseError` => `ParseError`
 //@ prologue let ghost s0 = bytes_reader.remaining();
 //@ loop 1 invariant s0 == old(bytes_reader).remaining(), skip_unknown(bytes_reader.remaining()) == skip_unknown(s0), *self == *old(self)
 //@ loop 1 decreases bytes_reader.remaining().len()
@@ -506,6 +57,7 @@ impl Stream<UniRemote, H3> {
 //@ ensures read_frame_post(2, false, old(bytes_reader).remaining(), final(bytes_reader).remaining(), r)
 //@ end
 }
+
 
 } // verus!
 
